@@ -370,6 +370,10 @@ def shard(shard, seed, n):
         allow_ms = routine in ("optimize", "boxed")
         ng = 1 if routine == "optimize" else rnd.randint(2, 3) if routine != "pareto" else 2
         specs = tuple(gen_goal_spec(g, rnd, allow_ms, strategy) for _ in range(ng))
+        if routine in ("boxed", "pareto", "lexicographic") and specs[0][0] in ("min", "max") and rnd.random() < 0.3:
+            # the "bounding box" use: the same term minimised and maximised
+            flip = ("max" if specs[0][0] == "min" else "min", specs[0][1], specs[0][2])
+            specs = (specs[0], flip) + specs[2:]
         check_case(run, tuple(system), specs, routine, strategy, kind, rnd.random() < 0.5, rnd.choice([0, 0, 1, 2]),
                    reuse=rnd.random() < 0.3)
     drive(body, st.randoms(use_true_random=True), n, derive_seed(seed, "c18", shard))
